@@ -1,7 +1,7 @@
 """C04 -- no client operation outlives its stream or connection.
 
-Implementation side: the COMPLETE matrix operation(8) x blocking reason(4) x termination event(5) x
-order(2) x deadline(2) = 640 cells (plus status-already-arrived, implicit-send_request, after-headers and
+Implementation side: the COMPLETE matrix operation(8) x blocking reason(4) x termination event(6) x
+order(2) x deadline(2) = 768 cells (plus status-already-arrived, implicit-send_request, after-headers and
 slot-holder variants) on the real Channel / Stream / H2Protocol objects on the virtual-time loop; a task
 still pending at quiescence is blocked forever.  Model side: Model/Termination.predict (the scenario
 interpreter over the guard kernel and the GENERATED client operations) answers every cell; compared are
@@ -42,7 +42,7 @@ FAILING = {'none': None, 'h503': 14, 'tonly7': 7, 'trailers5': 5, 'trailers0': N
 def base_cell(op, reason, event, order, deadline):
     variant = 'implicit' if (op == 'sm' and reason == 'slot' and order == 'during') else 'base'
     return {'op': op, 'reason': reason, 'event': event, 'order': order, 'deadline': deadline,
-            'status': 'none', 'variant': variant, 'holder': 'idle'}
+            'status': 'none', 'variant': variant, 'holder': 'idle', 'violation': 'window'}
 
 
 def matrix():
@@ -64,6 +64,9 @@ def extra_cells(tier):
                             c = base_cell(op, r, e, o, d)
                             c['status'] = st
                             out.append(c)
+                            if e == 'serr' and st.startswith(('tonly', 'trailers')):
+                                # the other stream-level violation: stray DATA after the server's END_STREAM
+                                out.append(dict(c, violation='data'))
     for v, op, rs in (('implicit', 'sm', ('paused', 'slot', 'window')),
                       ('after_headers', 'rm', ('silent', 'paused')),
                       ('after_headers', 'ax', ('silent', 'paused')),
@@ -131,7 +134,7 @@ def oracle(c, obs):
     before it started on an affected call (before).  Returns a list of (what, signature)."""
     if obs['setup'] != 'ok':
         return []
-    level = 'stream' if c['event'] == 'rst' else 'connection'
+    level = 'stream' if c['event'] in ('rst', 'serr') else 'connection'
     sig = {'op': c['op'], 'site': obs.get('stuck_site', obs.get('site', 'no')),
            'blocked_on': obs.get('stuck_on', obs.get('blocked', 'no')), 'event_level': level,
            'order': c['order'], 'registered': bool(obs.get('registered'))}
@@ -172,7 +175,7 @@ def check_cells(ctx, res, cells, compare_model=True):
             res.count('order:%s' % c['order'])
             res.count('blocked_on:%s' % obs.get('blocked'))
             res.count('outcome:%s/%s' % (obs['op'].split(':')[0], obs['ctx'].split(':')[0]))
-            res.signatures.add((c['op'], c['reason'], c['event'], c['order'], c['deadline'], c['status'],
+            res.signatures.add((c['op'], c['reason'], c['event'], c.get('violation'), c['order'], c['deadline'], c['status'],
                                 c['variant'], c['holder'], obs.get('blocked'), obs['op'], obs['ctx']))
             if obs.get('unhandled'):
                 res.count('loop-exception-handler-calls', obs['unhandled'])
@@ -227,7 +230,7 @@ def check_multi(ctx, res, spec, batch=None):
     res.signatures.add(('multi', tuple(spec['ops']), tuple(spec['after']), spec['event'],
                         tuple(d['res'] for d in out['during']), tuple(a['res'] for a in out['after'])))
     res.sample({'multi': spec, 'observed': out}, limit=10)
-    level = 'stream' if spec['event'] == 'rst' else 'connection'
+    level = 'stream' if spec['event'] in ('rst', 'serr') else 'connection'
     for d in out['during']:
         if d['blocked'] and d['res'] != 'StreamTerminated':
             res.oracle_failures.append({
@@ -273,8 +276,10 @@ def run(ctx):
     res = Result()
     res.rule = ('the complete matrix op(8: send_request, send_message, end, recv_initial_metadata, recv_message, '
                 'recv_trailing_metadata, cancel, context exit) x reason(4: transport paused, INITIAL_WINDOW_SIZE=0, '
-                'MAX_CONCURRENT_STREAMS reached with another call open, peer silent) x event(5: RST_STREAM, GOAWAY, '
-                'bytes h2 refuses, connection_lost, Channel.close) x order(2) x deadline(2) = 640 cells, all run; '
+                'MAX_CONCURRENT_STREAMS reached with another call open, peer silent) x event(6: RST_STREAM, GOAWAY, '
+                'bytes h2 refuses, connection_lost, Channel.close, stream-level protocol violation by the peer that makes '
+                'h2 reset the stream itself -- WINDOW_UPDATE overflow, or stray DATA after END_STREAM) x order(2) x '
+                'deadline(2) = 768 cells, all run; '
                 'cells that cannot be set up are counted under setup:* (op-not-blocked: the reason does not suspend '
                 'that operation; no-stream-for-rst / rst-infeasible: no stream the peer could reset; call-unaffected: '
                 'send_request after the event opens a new connection); plus the same with a status already arrived '
@@ -315,5 +320,6 @@ def replay(ctx, case):
         c.setdefault('status', 'none')
         c.setdefault('variant', 'base')
         c.setdefault('holder', 'idle')
+        c.setdefault('violation', 'window')
         check_cells(ctx, res, [c])
     return res
